@@ -251,7 +251,12 @@ def worker_main(fn, mem_gb=12):
     pass
   payload = json.loads(sys.stdin.read())
   res = fn(payload)
-  sys.stdout.write('\n@@JSON ' + json.dumps(res) + '\n')
+  def _default(o):
+    try:
+      return o.item()
+    except Exception:  # pylint: disable=broad-except
+      return str(o)
+  sys.stdout.write('\n@@JSON ' + json.dumps(res, default=_default) + '\n')
   sys.stdout.flush()
 
 
